@@ -33,6 +33,16 @@ def oracle(rep, rnd, tier, impl):
         ("def o = <* _str_ = fn(self) error 'S' *>; def f(x) error 'X'; do f(o) catch 'X' 'ok' end", "(s 111 107)"),
         ("def o = <* _str_ = fn(self) 1 / 0 *>; def f(x, y) error [1]; do f(1, o) catch [1] 'ok' end", "(s 111 107)"),
         ("def o = <* _str_ = fn(self) 'OBJ' *>; string(o) + string([o])", "(s 79 66 74 91 79 66 74 93)"),
+        # error values that cannot be turned into text (an output stream, an object whose _str_ fails), functions, patterns, dates:
+        # the handler is chosen by the value, nothing about the value is computed on the way
+        ("def o = <*_str_ = fn(self) error 'S'*>; do do error o catch 'ERROR' 'inner' catch 'S' 'innerS' end catch o 'outer' end", "(s 111 117 116 101 114)"),
+        ("def o = <*_str_ = fn(self) 1 / 0*>; def l = []; for i in [1, 2] do do error o catch 'ERROR' append(l, 100) catch o append(l, i) end end; l", "(list (i 1) (i 2))"),
+        ("def l = []; do do error stdout catch 'ERROR' append(l, 1) finally append(l, 2) end catch stdout append(l, 3) finally append(l, 4) end; l", "(list (i 2) (i 3) (i 4))"),
+        ("do error stdout catch 'ERROR' 1 catch all 2 end", "(i 2)"),
+        ("def f = fn(x) x; do error f catch 'ERROR' 1 catch f 2 end", "(i 2)"),
+        ("do error //a+// catch 'ERROR' 1 catch //a+// 2 end", "(i 2)"),
+        ("do error date('20200102') catch 'ERROR' 1 catch date('20200102') 2 end", "(i 2)"),
+        ("def g() error stdout; def l = []; do g() catch 'ERROR' append(l, 1) catch all append(l, 2) end; l", "(list (i 2))"),
     ]
     # every kind of runtime failure (raised by the language, by a native as a host exception of whatever class, by unbounded
     # recursion) x every nest: the nearest matching handler gets it as 'ERROR', finally parts run once, nothing after the failure runs
